@@ -121,9 +121,9 @@ def roundFloats (r : ShapeRec) (nd : Int) : Except PyErr ShapeRec := do
 def normalizeOpacity (r : ShapeRec) : ShapeRec :=
   if r.getS "fill" == "none" && r.getS "stroke" == "none" then r else
   let r1 := if r.getS "fill" == "none" then
-      (r.set "opacity" (.f (r.getF "opacity" * r.getF "stroke_opacity"))).set "stroke_opacity" (.f 1.0) else r
+      (r.set "opacity" (.f (clampOpacity (r.getF "opacity") * clampOpacity (r.getF "stroke_opacity")))).set "stroke_opacity" (.f 1.0) else r
   if r1.getS "stroke" == "none" then
-    (r1.set "opacity" (.f (r1.getF "opacity" * r1.getF "fill_opacity"))).set "fill_opacity" (.f 1.0)
+    (r1.set "opacity" (.f (clampOpacity (r1.getF "opacity") * clampOpacity (r1.getF "fill_opacity")))).set "fill_opacity" (.f 1.0)
   else r1
 
 end ShapeRec
